@@ -10,7 +10,7 @@
 EXTENDS Naturals, Sequences, FiniteSets, TLC
 
 Endpoints == <<"tcb", "qe", "pckcrl", "rootcrl">>
-HeaderShapes == {"ok", "nilMap", "missing", "emptyList", "emptyString", "badEscape", "notPem", "onePem", "pemOtherType",
+HeaderShapes == {"ok", "nilMap", "missing", "emptyList", "emptyString", "badEscape", "notPem", "onePem", "rootOddDp", "pemOtherType",
                  "truncatedDer", "threeCerts", "hugeJunk"}
 JsonBodies == {"ok", "empty", "notJson", "jsonNull", "jsonArray", "jsonNumber", "memberNull", "memberString", "memberArray",
                "signatureNumber", "signatureMissing", "signatureOddHex", "signatureShort", "versionString", "versionHuge", "versionNegative",
